@@ -18,7 +18,7 @@ RULE = ("each run = a reference world plus transformed twins: identical rebuild,
         "uncontrolled and finite-rate greedy parties; non-trivial = a non-identity permutation with >=1 binding constraint "
         "(some pilot below its station maximum while demand remains); distinct = history signature + transformation set")
 PROBES = ["unnamed_limits_with_withdrawn_draft", "recorded_arrival_before_plugin_period", "rebuild_pair", "registration_permuted", "constraints_permuted", "sessions_permuted", "shift_pair",
-          "hashseed_fresh_interpreter", "sorted_finite_world", "guard_band_skips", "json_clone_pair", "deepcopy_pair", "one_noisy_battery_world", "json_clone_permuted_pair", "second_life_pair",
+          "hashseed_fresh_interpreter", "sorted_finite_world", "guard_band_skips", "json_clone_pair", "deepcopy_pair", "one_noisy_battery_world", "json_clone_permuted_pair", "second_life_pair", "second_life_other_registration_order",
           "uninterrupted_world", "training_records_listed_in_another_order"]
 FAULT_DIMENSION = "reordering / hash seed / time shift as metamorphic schedule dimension (no faults injected)"
 ASSUMPTIONS = ["sorted parties are compared under permutations only when every priority key gap and feasibility margin of the "
@@ -270,6 +270,11 @@ def check(sc):
     sc2["second_life"] = {k: r.random() < 0.7 for k in ("network", "queue", "evs", "algo")}
     if sub(sc["seed"], "longer_first_life").random() < 0.5:
         sc2["second_life"]["longer_first_life"] = sub(sc["seed"], "longer_first_life").choice([3, 10, 25])      # the earlier run ended later than this one
+    rp = sub(sc["seed"], "first_life_perm")
+    if rp.random() < 0.5 and len(sc["network"]["stations"]) > 1:
+        # the algorithm object served a site with the same stations registered in another order before (round 13)
+        sc2["second_life"].update(network=False, algo=True, first_perm=rp.randrange(10 ** 6))
+        out.probe("second_life_other_registration_order")
     if not sc.get("one_noisy_battery"):
         # (with a noisy battery the earlier run has consumed part of the environment's random stream: the second life legitimately
         # sees other draws)
